@@ -215,8 +215,8 @@ impl UnitPropagate {
             } else {
                 // num_remaining > 1, find a new literal to watch
                 // first, find a new literal to watch
-                let candidate_unwatched: LitIdx =
-                    remaining_lits.clone().next().unwrap().label().value_usize();
+                let candidate_lit: Literal = *remaining_lits.clone().next().unwrap();
+                let candidate_unwatched: LitIdx = candidate_lit.label().value_usize();
                 // check if candidate_unwatched is already being watched; if it
                 // is, pick another literal to watch
                 let prev_watcher: ClauseIdx = if new_assignment.polarity() {
@@ -225,7 +225,9 @@ impl UnitPropagate {
                     self.watch_list_pos[var_idx][watcher_idx]
                 };
 
-                let new_lit: &Literal = if new_assignment.polarity() {
+                // the candidate is watched iff the clause is on the watch
+                // list of the candidate literal's own polarity
+                let new_lit: &Literal = if candidate_lit.polarity() {
                     if self.watch_list_pos[candidate_unwatched].contains(&prev_watcher) {
                         remaining_lits.nth(1).unwrap()
                     } else {
